@@ -1004,3 +1004,42 @@ def text_parts(v):
         else:
             out.append(p)
     return out
+
+
+# ---------------------------------------------------------------------------
+# look-aside tables: try/except KeyError, `in` test, .get() with a sentinel
+
+def lookup_case(ps, is_table):
+    """"hit" / "miss" / None for a path through a look-aside: the path found
+    the key in the table (``try`` body completed, ``key in table`` true,
+    ``.get`` result is not the sentinel) or did not.  is_table(value) tells
+    whether an abstract value is the table in question."""
+    from .summary import facts_of
+    miss = hit = False
+    for _, pol0, v0 in ps.conds:
+        if not isinstance(v0, tuple):
+            continue
+        if v0[0] == "except" and "KeyError" in v0[1]:
+            miss = True
+            continue
+        for v, pol in facts_of(v0, pol0):
+            if not isinstance(v, tuple) or v[0] != "compare":
+                continue
+            if v[1] in (("In",), ("NotIn",)) and len(v[3]) == 1 and \
+                    is_table(v[3][0]):
+                inside = pol if v[1] == ("In",) else not pol
+                hit, miss = hit or inside, miss or not inside
+            if v[1] in (("Is",), ("IsNot",)) and isinstance(v[2], tuple) and \
+                    v[2][0] == "call" and v[2][1].endswith(".get") and \
+                    len(v[2]) >= 5 and v[2][4][0] == "recv" and \
+                    is_table(v[2][4][1]):
+                is_sentinel = pol if v[1] == ("Is",) else not pol
+                hit, miss = hit or not is_sentinel, miss or is_sentinel
+    if hit and not miss:
+        return "hit"
+    if miss and not hit:
+        return "miss"
+    if not hit and not miss:
+        # try-form: the path that never entered the handler is the hit
+        return "try-body"
+    return None
